@@ -30,12 +30,27 @@ const formSet258 xcbor.Form = 100
 // transaction owns the entry).
 const formGhostAux xcbor.Form = 101
 
+// More data-model edits / encoding choices the era decoders accept:
+const (
+	formGhostAux16  xcbor.Form = 102 // aux entry keyed (tx index + 65536)   (uint16 cast)
+	formGhostAux8   xcbor.Form = 103 // aux entry keyed (tx index + 256)     (uint8 cast)
+	formGhostMax32  xcbor.Form = 104 // aux entry keyed 2^32-1 (no such transaction)
+	formGhost65535  xcbor.Form = 105 // aux entry keyed 65535 (no such transaction)
+	formReverseKeys xcbor.Form = 106 // map entries in reverse (non-canonical) order
+	formDupKey      xcbor.Form = 107 // first map entry repeated at the end (duplicate key, same value)
+)
+
+var pseudoNames = map[xcbor.Form]string{
+	formSet258: "set258", formGhostAux: "ghost-entry-index+2^32", formGhostAux16: "ghost-entry-index+65536",
+	formGhostAux8: "ghost-entry-index+256", formGhostMax32: "ghost-entry-key-2^32-1", formGhost65535: "ghost-entry-key-65535",
+	formReverseKeys: "reverse-key-order", formDupKey: "duplicate-first-key",
+}
+
+var ghostForms = map[xcbor.Form]bool{formGhostAux: true, formGhostAux16: true, formGhostAux8: true, formGhostMax32: true, formGhost65535: true}
+
 func formName(f xcbor.Form) string {
-	if f == formSet258 {
-		return "set258"
-	}
-	if f == formGhostAux {
-		return "ghost-entry-index+2^32"
+	if n, ok := pseudoNames[f]; ok {
+		return n
 	}
 	return f.String()
 }
@@ -44,11 +59,10 @@ func formName(f xcbor.Form) string {
 // definite widths are one class (the measured matrix in the evidence shows
 // whether they behave alike).
 func formClass(f xcbor.Form) string {
+	if n, ok := pseudoNames[f]; ok {
+		return n
+	}
 	switch f {
-	case formSet258:
-		return "set258"
-	case formGhostAux:
-		return "ghost-entry-index+2^32"
 	case xcbor.FormIndef:
 		return "indefinite"
 	case xcbor.FormMinimal:
@@ -88,7 +102,7 @@ func editsString(es []edit) string {
 
 func causeKey(layout, api string, e edit) string {
 	k := fmt.Sprintf("C07:%s:%s:%s:%s", layout, api, e.Role, formClass(e.Form))
-	if e.Size != "" && e.Form != formGhostAux {
+	if _, pseudo := pseudoNames[e.Form]; e.Size != "" && (!pseudo || e.Form == formSet258) {
 		k += ":" + e.Size
 	}
 	return k
@@ -102,8 +116,15 @@ func admissible(typ uint, r roleRef, f xcbor.Form) bool {
 	if f == formSet258 {
 		return typ >= fixtures.TypeConway && set258Roles[r.Role] && r.N.Kind == xcbor.Array
 	}
-	if f == formGhostAux {
+	if ghostForms[f] {
 		return r.Role == "aux-map" && r.N.Kind == xcbor.Map
+	}
+	if f == formReverseKeys {
+		return r.N.Kind == xcbor.Map && len(r.N.Items) >= 4
+	}
+	if f == formDupKey {
+		return r.N.Kind == xcbor.Map && len(r.N.Items) >= 2 &&
+			(r.Role == "redeemers-map" || r.Role == "aux-map") // body / witness maps: rejected by every era decoder (measured), not generated
 	}
 	return canApply(r.N, f)
 }
@@ -153,7 +174,8 @@ func applyForm(n *xcbor.Node, f xcbor.Form, chunk int) {
 	n.Apply(f, chunk)
 }
 
-var allForms = []xcbor.Form{xcbor.FormMinimal, xcbor.FormW1, xcbor.FormW2, xcbor.FormW4, xcbor.FormW8, xcbor.FormIndef, formSet258, formGhostAux}
+var allForms = []xcbor.Form{xcbor.FormMinimal, xcbor.FormW1, xcbor.FormW2, xcbor.FormW4, xcbor.FormW8, xcbor.FormIndef, formSet258,
+	formGhostAux, formGhostAux16, formGhostAux8, formGhostMax32, formGhost65535, formReverseKeys, formDupKey}
 
 // applyPlan clones base, applies the edits, recomputes the header commitment
 // and returns the encoded block.
@@ -167,11 +189,37 @@ func applyPlan(typ uint, base *xcbor.Node, plan []edit) ([]byte, error) {
 			wraps = append(wraps, n)
 			continue
 		}
-		if e.Form == formGhostAux {
-			// key = 2^32 + (index of the first transaction that has aux data, else 0)
-			k := uint64(1) << 32
+		if e.Form == formReverseKeys {
+			for i, j := 0, len(n.Items)-2; i < j; i, j = i+2, j-2 {
+				n.Items[i], n.Items[j] = n.Items[j], n.Items[i]
+				n.Items[i+1], n.Items[j+1] = n.Items[j+1], n.Items[i+1]
+			}
+			continue
+		}
+		if e.Form == formDupKey {
+			n.Items = append(n.Items, n.Items[0].Clone(), n.Items[1].Clone())
+			if !n.Indef {
+				n.Width = 0
+			}
+			continue
+		}
+		if ghostForms[e.Form] {
+			// key = offset + (index of the first transaction that has aux data, else 0)
+			var k uint64
 			if len(n.Items) >= 2 && n.Items[0].Kind == xcbor.Uint {
-				k += n.Items[0].Arg
+				k = n.Items[0].Arg
+			}
+			switch e.Form {
+			case formGhostAux:
+				k += 1 << 32
+			case formGhostAux16:
+				k += 1 << 16
+			case formGhostAux8:
+				k += 1 << 8
+			case formGhostMax32:
+				k = 1<<32 - 1
+			case formGhost65535:
+				k = 65535
 			}
 			n.Items = append(n.Items, xcbor.U(k), xcbor.M(xcbor.U(5), xcbor.T("ghost")))
 			if !n.Indef && n.Width < 1 {
@@ -268,10 +316,22 @@ func judge(buf []byte, m *blockModel, offs *common.BlockTransactionOffsets) ([]m
 			st.Unreported++
 		}
 		if loc.Metadata.Length > 0 || loc.Metadata.Offset > 0 {
-			if tx.Aux == nil {
+			switch {
+			case tx.Aux == nil:
 				st.Reported++
 				bad(i, "metadata", "range %s reported for a transaction without auxiliary data", describe(buf, loc.Metadata))
-			} else {
+			case len(tx.AuxAll) > 1:
+				// duplicated key (byte-identical values): either occurrence is the component
+				st.Reported++
+				hit := false
+				for _, a := range tx.AuxAll {
+					o, l := rangeOf(a)
+					hit = hit || (loc.Metadata.Offset == o && loc.Metadata.Length == l)
+				}
+				if !hit {
+					bad(i, "metadata", "reported %s is none of the %d entries keyed %d", describe(buf, loc.Metadata), len(tx.AuxAll), i)
+				}
+			default:
 				same(i, "metadata", loc.Metadata, tx.Aux)
 			}
 		} else if tx.Aux != nil {
@@ -460,6 +520,7 @@ func encodingMismatches(mm []mismatch) []mismatch {
 }
 
 type verdict struct {
+	Hist     map[string]string // api -> purity / history violation ("kind: detail")
 	Accepted bool
 	Err      map[string]string     // api -> extractor error on an accepted block
 	MM       map[string][]mismatch // api -> mismatches
@@ -469,12 +530,28 @@ type verdict struct {
 
 // evaluate runs the era decoder (body validation on: the commitment was
 // recomputed) and, when it accepts, both extractors against the xcbor model.
+//
+// Purity: every library call gets the bytes in the shared input buffer, which is
+// overwritten right after the call; tables returned earlier must still equal
+// their snapshots; every evalTick-th evaluation additionally feeds a truncated
+// and a garbled copy of the block to the extractor first (a failed extraction
+// must return no table and must not influence the next result) and repeats the
+// call on a private copy (same bytes => same table).
+var evalCount int
+
+const evalTick = 6
+
 func evaluate(typ uint, buf []byte) (*verdict, error) {
-	v := &verdict{Err: map[string]string{}, MM: map[string][]mismatch{}, St: map[string]judgeStats{}, Helper: map[string]string{}}
-	if _, err := ledger.NewBlockFromCbor(typ, buf); err != nil {
+	v := &verdict{Hist: map[string]string{}, Err: map[string]string{}, MM: map[string][]mismatch{}, St: map[string]judgeStats{}, Helper: map[string]string{}}
+	in := viaScratch(buf)
+	_, derr := ledger.NewBlockFromCbor(typ, in)
+	clobber(in)
+	if derr != nil {
 		return v, nil
 	}
 	v.Accepted = true
+	evalCount++
+	deep := evalCount%evalTick == 0
 	root, err := xcbor.ParseExact(buf)
 	if err != nil {
 		return nil, fmt.Errorf("harness: accepted block does not parse: %w", err)
@@ -484,17 +561,47 @@ func evaluate(typ uint, buf []byte) (*verdict, error) {
 		return nil, fmt.Errorf("harness: accepted block has no model: %w", err)
 	}
 	for _, api := range apis {
-		offs, err := callAPI(api, typ, buf)
+		if deep {
+			// failure steps first: truncated, then garbled
+			for k, bad := range [][]byte{buf[:len(buf)/2], append([]byte{0xff}, buf[1:]...)} {
+				in := viaScratch(bad)
+				o, err := callAPI(api, typ, in)
+				clobber(in)
+				if err != nil && o != nil {
+					v.Hist[api] = fmt.Sprintf("table-returned-with-error: failure step %d returned error %q together with a table of %d transactions", k, err, len(o.Transactions))
+				}
+			}
+		}
+		in := viaScratch(buf)
+		offs, err := callAPI(api, typ, in)
+		clobber(in)
+		if d := heldChanged(); d != "" && v.Hist[api] == "" {
+			v.Hist[api] = "earlier-result-changed: " + d
+			held = nil
+		}
 		if err != nil {
 			v.Err[api] = err.Error()
+			if offs != nil && v.Hist[api] == "" {
+				v.Hist[api] = "table-returned-with-error: " + err.Error()
+			}
 			continue
 		}
 		if offs == nil {
 			v.Err[api] = "nil offsets"
 			continue
 		}
+		holdResult(api, fmt.Sprintf("a %d-byte type-%d block", len(buf), typ), offs)
 		v.MM[api], v.St[api] = judge(buf, m, offs)
 		v.Helper[api] = helpersAgree(buf, offs)
+		if deep && v.Hist[api] == "" {
+			priv := append([]byte(nil), buf...)
+			again, err2 := callAPI(api, typ, priv)
+			if err2 != nil {
+				v.Hist[api] = "repeat-differs: second call on the same bytes fails: " + err2.Error()
+			} else if d := sameOffsets(offs, again); d != "" {
+				v.Hist[api] = "repeat-differs: second call on the same bytes gives another table: " + d
+			}
+		}
 	}
 	return v, nil
 }
@@ -525,7 +632,21 @@ type baseBlock struct {
 	Tree *xcbor.Node
 	// OnlySize restricts the sweep over this base to containers of that size class
 	OnlySize string
+	// OnlyRoles restricts the sweep over this base to these roles (nil = all);
+	// an empty non-nil map means "unedited block only"
+	OnlyRoles map[string]bool
+	// OnlyForms restricts the forms tried on this base (nil = all admissible)
+	OnlyForms []xcbor.Form
 }
+
+var txListRoles = map[string]bool{"bodies-array": true, "witnesses-array": true, "tx-payload": true, "txs-array": true}
+
+// two representative head forms for the large special-size bases
+var twoForms = []xcbor.Form{xcbor.FormW2, xcbor.FormIndef, xcbor.FormMinimal}
+
+// the containers whose heads sit in front of / around the transactions
+var listRoles = map[string]bool{"block-array": true, "bodies-array": true, "witnesses-array": true, "aux-map": true,
+	"body-array": true, "tx-payload": true, "tx-pair": true, "txs-array": true, "tx-array": true}
 
 func sweepBases() []baseBlock {
 	var out []baseBlock
@@ -544,6 +665,47 @@ func sweepBases() []baseBlock {
 		out = append(out, baseBlock{Name: t.Name + "-gen-257tx-2outs", Type: t.Type, Tree: bigBlock(t, 257, 2, 0, 0), OnlySize: "ge256"})
 		out = append(out, baseBlock{Name: t.Name + "-gen-2tx-257outs", Type: t.Type, Tree: bigBlock(t, 2, 257, 0, 1), OnlySize: "ge256"})
 	}
+	// special transaction counts (CBOR head-width boundaries), one template per
+	// layout, swept over the list containers only
+	for _, name := range []string{"byron_main", "mary", "dijkstra"} {
+		t := templateByName(name)
+		for _, n := range []int{1, 23, 24, 255, 256} {
+			b := baseBlock{Name: fmt.Sprintf("%s-gen-%dtx", t.Name, n), Type: t.Type, Tree: bigBlock(t, n, 0, 0, 0), OnlyRoles: listRoles, OnlyForms: twoForms}
+			if n >= 255 { // large blocks: the transaction lists only, one form
+				b.OnlyRoles, b.OnlyForms = txListRoles, []xcbor.Form{xcbor.FormIndef, xcbor.FormMinimal}
+			}
+			out = append(out, b)
+		}
+	}
+	// a transaction body / witness set / auxiliary data item of exactly 23, 24,
+	// 255, 256, 65535, 65536 bytes (where the era offers a knob; otherwise
+	// >= 65536 bytes by repetition), unedited; list containers swept for the
+	// boundary sizes of one template per layout
+	for _, t := range templates() {
+		for _, which := range []string{"body", "witness", "aux"} {
+			for _, size := range []int{23, 24, 255, 256, 65535, 65536} {
+				tree := sizedBlock(t, which, size)
+				if tree == nil {
+					continue
+				}
+				roles := map[string]bool{}
+				if (t.Name == "byron_main" || t.Name == "conway" || t.Name == "dijkstra") && (size == 24 || size == 256) {
+					roles = listRoles
+				} else if (t.Name == "byron_main" || t.Name == "conway") && size == 65536 {
+					roles = txListRoles
+				}
+				out = append(out, baseBlock{Name: fmt.Sprintf("%s-gen-%s-of-%d-bytes", t.Name, which, size), Type: t.Type, Tree: tree, OnlyRoles: roles, OnlyForms: twoForms})
+			}
+		}
+		for _, which := range []string{"body", "witness"} {
+			if tree := hugeBlock(t, which); tree != nil {
+				out = append(out, baseBlock{Name: fmt.Sprintf("%s-gen-%s-over-64KiB", t.Name, which), Type: t.Type, Tree: tree, OnlyRoles: map[string]bool{}})
+			}
+		}
+	}
+	// the epoch boundary block (no transactions: nothing may be reported)
+	ebb := fixtures.ByName("byron_ebb")
+	out = append(out, baseBlock{Name: ebb.Name, Type: ebb.Type, Tree: mustParse(ebb.Bytes), OnlyRoles: map[string]bool{}})
 	return out
 }
 
@@ -591,6 +753,12 @@ func TestC07(t *testing.T) {
 			for _, k := range kk {
 				fail(fmt.Sprintf("C07:%s:%s:%s", lay, api, k),
 					fmt.Sprintf("%s offsets of %s block %q: map key does not identify the component: %s", api, lay, b.Name, summarize(keyed[k])),
+					map[string]any{"block": b.Name, "type": b.Type, "plan": editsString(plan), "api": api, "block_hex": evi.Hex(buf), "block_len": len(buf)})
+			}
+			if h := v.Hist[api]; h != "" {
+				kind := h[:strings.Index(h, ":")]
+				fail(fmt.Sprintf("C07:%s:%s:history:%s", lay, api, kind),
+					fmt.Sprintf("%s offsets of %s block %q are not a function of the block bytes alone: %s", api, lay, b.Name, h),
 					map[string]any{"block": b.Name, "type": b.Type, "plan": editsString(plan), "api": api, "block_hex": evi.Hex(buf), "block_len": len(buf)})
 			}
 			what := ""
@@ -651,6 +819,9 @@ func TestC07(t *testing.T) {
 			byRole[r.Role] = append(byRole[r.Role], r)
 		}
 		for _, role := range order {
+			if b.OnlyRoles != nil && !b.OnlyRoles[role] {
+				continue
+			}
 			refs := byRole[role]
 			// instances: spread over the block (first, last, middle…), preferring
 			// large containers so the ge24 classes are met
@@ -676,7 +847,11 @@ func TestC07(t *testing.T) {
 				if b.OnlySize != "" && sizeClass(r.N) != b.OnlySize {
 					continue
 				}
-				for _, f := range allForms {
+				forms := allForms
+				if b.OnlyForms != nil {
+					forms = b.OnlyForms
+				}
+				for _, f := range forms {
 					if !admissible(b.Type, r, f) {
 						continue
 					}
@@ -707,7 +882,7 @@ func TestC07(t *testing.T) {
 							c.Rejected++
 						case v.Err[api] != "":
 							c.ApiErr++
-						case len(encodingMismatches(v.MM[api])) > 0 || v.Helper[api] != "":
+						case len(encodingMismatches(v.MM[api])) > 0 || v.Helper[api] != "" || v.Hist[api] != "":
 							c.Fail++
 						default:
 							c.Pass++
@@ -740,6 +915,84 @@ func TestC07(t *testing.T) {
 			rows = append(rows, fmt.Sprintf("%s pass=%d fail=%d rejected=%d apierr=%d", k, c.Pass, c.Fail, c.Rejected, c.ApiErr))
 		}
 		rec.SetExtra("sweep_matrix(layout|api|role|form|size)", rows)
+	}
+
+	// ---- phase 1b: explicit histories -------------------------------------------------
+	// Every real block (all eras, EBB included) plus, for each, two siblings that
+	// keep the header and/or the body bytes: S1 = same header, same body, block
+	// array head 0x98 (every offset moves by one) and S2 = same body, header
+	// array head 0x98 (different header bytes). The sequence is run forwards,
+	// backwards and interleaved with failed calls on one shared input buffer; the
+	// table of an item must be the same in every pass (and is judged against the
+	// xcbor model in the first).
+	{
+		type hItem struct {
+			name string
+			typ  uint
+			b    []byte
+		}
+		var items []hItem
+		for _, fx := range fixtures.Blocks() {
+			items = append(items, hItem{fx.Name, fx.Type, fx.Bytes})
+			if fx.Type == fixtures.TypeByronEbb {
+				continue
+			}
+			tree := mustParse(fx.Bytes)
+			for i, form := range []xcbor.Form{xcbor.FormW1, xcbor.FormW2} {
+				if buf, err := applyPlan(fx.Type, tree, []edit{{Idx: i, Role: []string{"block-array", "header-array"}[i], Form: form, Tx: -1}}); err == nil {
+					items = append(items, hItem{fmt.Sprintf("%s/S%d", fx.Name, i+1), fx.Type, buf})
+				}
+			}
+		}
+		first := map[string]*common.BlockTransactionOffsets{}
+		firstErr := map[string]bool{}
+		nHist := 0
+		visit := func(it hItem, pass string, failFirst bool) {
+			lay := layoutOf(it.typ)
+			for _, api := range apis {
+				if failFirst {
+					in := viaScratch(it.b[:len(it.b)*2/3])
+					_, _ = callAPI(api, it.typ, in)
+					clobber(in)
+				}
+				in := viaScratch(it.b)
+				o, err := callAPI(api, it.typ, in)
+				clobber(in)
+				rec.Eval()
+				nHist++
+				k := it.name + "|" + api
+				if prev, seen := first[k]; !seen {
+					first[k], firstErr[k] = copyOffsets(o), err != nil
+				} else if d := sameOffsets(prev, o); d != "" || firstErr[k] != (err != nil) {
+					rec.Violation(fmt.Sprintf("C07:%s:%s:history:order-dependent", lay, api),
+						fmt.Sprintf("%s on block %s gives another result in pass %q than when first called (error then %v, now %v): %s", api, it.name, pass, firstErr[k], err, d),
+						map[string]any{"block": it.name, "pass": pass, "api": api})
+				}
+			}
+		}
+		for _, it := range items { // forwards; also judged
+			if it.typ != fixtures.TypeByronEbb || true {
+				v, err := evaluate(it.typ, it.b)
+				if err == nil && v.Accepted {
+					report(rec.Violation, baseBlock{Name: "history:" + it.name, Type: it.typ}, nil, v, it.b, func(api string) string {
+						return fmt.Sprintf("C07:%s:%s:history:sibling-block:%s", layoutOf(it.typ), api, it.name)
+					})
+					if v.St["streaming"].Reported+v.St["extract"].Reported > 0 {
+						rec.NonTrivial("history "+it.name, nil)
+					}
+				}
+			}
+			visit(it, "forwards", false)
+		}
+		for i := len(items) - 1; i >= 0; i-- {
+			visit(items[i], "backwards after failed calls", true)
+		}
+		for i := range items { // A, sibling, A, other era, A …
+			visit(items[i], "interleaved", false)
+			visit(items[(i*7+3)%len(items)], "interleaved", i%2 == 0)
+			visit(items[i], "interleaved", false)
+		}
+		rec.SetExtra("n_history_calls", nHist)
 	}
 
 	// ---- phase 2: generated blocks × random multi-edit plans -----------------------
@@ -877,7 +1130,7 @@ func TestC07(t *testing.T) {
 		}
 		if len(plan) > 0 && v.St["streaming"].Reported+v.St["extract"].Reported > 0 {
 			rec.NonTrivial(b.Name+" | "+editsString(plan), map[string]any{"block": b.Name, "plan": editsString(plan), "len": len(buf),
-				"head": evi.Hex(buf[:min(len(buf), 48)]),
+				"head":               evi.Hex(buf[:min(len(buf), 48)]),
 				"reported_streaming": v.St["streaming"].Reported, "reported_extract": v.St["extract"].Reported})
 		}
 		// attribution: the first single edit of the plan that alone reproduces a
